@@ -273,7 +273,7 @@ func main() {
 		allow = append(allow, "github.com/antlr4-go/antlr/v4", "github.com/hashicorp/go-multierror", "github.com/openfga/api/proto/openfga/v1")
 		// std packages whose package-level tables interpreted code relies on (their init is plain
 		// Go; init of runtime/reflect-level packages stays skipped)
-		allow = append(allow, "strings", "bytes", "unicode", "unicode/utf8", "strconv", "sort", "slices", "net/url", "path", "math/bits")
+		allow = append(allow, "strings", "bytes", "unicode", "unicode/utf8", "strconv", "sort", "slices", "net/url", "path", "math/bits", "io")
 		ex := &interp.Explorer{Prog: prog, Pkg: sp, Cfg: interp.Config{
 			Harness: j.Harness, Workers: j.Workers, SolverBin: j.Solver, TimeoutMs: j.TimeoutMs,
 			MaxPaths: j.MaxPaths, MaxSteps: j.MaxSteps, Deadline: time.Duration(j.DeadlineS * float64(time.Second)),
